@@ -41,19 +41,25 @@ class Outcome:
 
 
 class State:
-    __slots__ = ("frames", "heap", "pc", "events")
+    __slots__ = ("frames", "heap", "pc", "events", "defs")
 
-    def __init__(self, frames=None, heap=None, pc=(), events=()):
+    def __init__(self, frames=None, heap=None, pc=(), events=(), defs=()):
         self.frames = frames if frames is not None else {}
         self.heap = heap if heap is not None else {}
         self.pc = pc
         self.events = events  # tuple of (kind, cond, where)
+        self.defs = defs  # definitional constraints of fresh variables (sqrt, fmod, contracts): also part of pc
 
     def fork(self):
-        return State({k: dict(v) for k, v in self.frames.items()}, dict(self.heap), self.pc, self.events)
+        return State({k: dict(v) for k, v in self.frames.items()}, dict(self.heap), self.pc, self.events, self.defs)
 
     def assume(self, c):
         self.pc = self.pc + (c,)
+
+    def define(self, c):
+        """constraint that defines a fresh variable: holds on every path that mentions it"""
+        self.pc = self.pc + (c,)
+        self.defs = self.defs + (c,)
 
 
 INT_RANGES = {
@@ -596,6 +602,7 @@ class Engine:
         if not (is_scalar(a) and is_scalar(b)):
             raise Unsupported(f"binop {op} on {a!r}, {b!r}")
         conc = is_conc(a) and is_conc(b)
+        b_orig = b
         if not conc:
             a, b = to_z3(a), to_z3(b)
         if op in ("Add", "AddUnchecked"):
@@ -625,8 +632,20 @@ class Engine:
                     else:
                         q = int(a / b)
                         r = a - q * b
+                elif is_conc(b_orig) and b_orig > 0:
+                    # Rust `%` on floats is fmod (sign of the dividend): a = q*b + r with integer q,
+                    # 0 <= r < b for a >= 0 and -b < r <= 0 for a < 0
+                    q = self.fresh("fmod_q", "int")
+                    r = self.fresh("fmod_r")
+                    bz = to_z3(b)
+                    st.define(z3.And(a == z3.ToReal(q) * bz + r, z3.If(a >= 0, z3.And(r >= 0, r < bz), z3.And(r <= 0, r > -bz))))
+                    # consequences of the definition for small quotients, stated explicitly to spare the solver the mixed
+                    # integer / nonlinear reasoning
+                    st.define(z3.And(z3.Implies(z3.And(a >= 0, a < bz), r == a), z3.Implies(z3.And(a >= bz, a < 2 * bz), r == a - bz),
+                                     z3.Implies(z3.And(a < 0, a > -bz), r == a), z3.Implies(z3.And(a <= -bz, a > -2 * bz), r == a + bz)))
+                    return r
                 else:
-                    raise Unsupported("symbolic float remainder")
+                    raise Unsupported("symbolic float remainder by a symbolic modulus")
             else:
                 if conc:
                     if b == 0:
@@ -731,7 +750,7 @@ class Engine:
             # trunc toward zero: fresh integer q with |q| <= |a| < |q| + 1 and the sign of a; saturation is a side condition
             q = self.fresh("f2i", "int")
             qa = z3.ToReal(q)
-            st.assume(z3.If(a >= 0, z3.And(qa <= a, a < qa + 1), z3.And(qa >= a, a > qa - 1)))
+            st.define(z3.If(a >= 0, z3.And(qa <= a, a < qa + 1), z3.And(qa >= a, a > qa - 1)))
             if ty in INT_RANGES:
                 lo, hi = INT_RANGES[ty]
                 st.events = st.events + (("float_to_int_in_range", z3.And(a > lo - 1, a < hi + 1), f"as {ty}"),)
@@ -841,7 +860,13 @@ class Engine:
         ev = [e for e in sa.events if id(e) in idb]
         ev += [(k, z3.Implies(ca, to_z3(cond)), w) for (k, cond, w) in sa.events if id((k, cond, w)) not in idb and not any(x is cond for (_, x, _) in sb.events)]
         ev += [(k, z3.Implies(cb, to_z3(cond)), w) for (k, cond, w) in sb.events if not any(x is cond for (_, x, _) in sa.events)]
-        return State(frames, heap, pc, tuple(ev))
+        seen = set()
+        defs = []
+        for d in tuple(sa.defs) + tuple(sb.defs):
+            if id(d) not in seen:
+                seen.add(id(d))
+                defs.append(d)
+        return State(frames, heap, pc, tuple(ev), tuple(defs))
 
     def merge_outcomes(self, outs, base_pc_len):
         if not self.merge or len(outs) <= 1:
